@@ -16,7 +16,7 @@ func (ro *Roles) removesFromWaitList(fn *ssa.Function, depth int) (ssa.Instructi
 	var found ssa.Instruction
 	allInstrs(fn, func(in ssa.Instruction) {
 		if mu, ok := in.(*ssa.MapUpdate); ok && ro.isWaitListMap(mu.Map) {
-			if f := ro.formOf(mu.Value, ro.w.AP(mu.Key), 0); f == "delete-at-i" {
+			if f := ro.formOf(mu.Value, ro.w.AP(mu.Key), 0); strings.HasPrefix(f, "delete-at-i") {
 				found = in
 			}
 		}
@@ -363,7 +363,7 @@ func (ro *Roles) canceledSites(r *Report, rule string) {
 							}
 						}
 						if e.Kind == "mapupdate" && strings.Contains(e.Target, waitListField) {
-							if mu, ok := e.In.(*ssa.MapUpdate); ok && ro.formOf(mu.Value, w.AP(mu.Key), 0) == "delete-at-i" {
+							if mu, ok := e.In.(*ssa.MapUpdate); ok && strings.HasPrefix(ro.formOf(mu.Value, w.AP(mu.Key), 0), "delete-at-i") {
 								removed = true
 							}
 						}
